@@ -28,7 +28,8 @@ def encode(ctx, pol):
     outs = it.run_function(ctx.prog.function('frame.marshal'),
                            [ref, Sym('param', 'channel_id')], {}, st)
     j = L.joined_return(it, outs)
-    res = {'interp': it, 'outs': outs, 'pci': pci, 'term': None}
+    res = {'interp': it, 'outs': outs, 'pci': pci, 'term': None,
+           'input_ids': {ref.id, p.id}}
     if j is None:
         return res
     res['term'] = j.value
